@@ -347,10 +347,25 @@ def sharded_eval(tag, hdr, terms, timeout=900):
     return out
 
 
+def has_huge_int(x):
+    """An integer beyond the range of a double somewhere in the value: the deterministic id of a 2.1 observable is
+    computed from a canonical JSON text (C06's model, abstract here as e_uuid5) that refuses such numbers."""
+    if isinstance(x, bool):
+        return False
+    if isinstance(x, int):
+        return abs(x) >= 2 ** 1023
+    if isinstance(x, dict):
+        return any(has_huge_int(v) for v in x.values())
+    if isinstance(x, (list, tuple)):
+        return any(has_huge_int(v) for v in x)
+    return False
+
+
 def run_model_cases(cases, variants, pats=None, tag="sch"):
-    """One line per case; cases flagged "py" (not JSON-like) are not evaluated: UNMODELLED."""
+    """One line per case; cases flagged "py" (not JSON-like) and cases carrying an integer beyond the range of a double
+    (canonicalisation for the deterministic id is not restated here) are not evaluated: UNMODELLED."""
     pats = pats if pats is not None else pattern_lists(cases)
-    idx = [i for i, c in enumerate(cases) if not c.get("py")]
+    idx = [i for i, c in enumerate(cases) if not c.get("py") and not has_huge_int(c.get("data"))]
     lines = sharded_eval(tag, header(variants, pats), [model_term(cases[i]) for i in idx])
     out = ["UNMODELLED"] * len(cases)
     for i, l in zip(idx, lines):
